@@ -36,6 +36,7 @@ K == [ SentOk1   |-> L("sent1", F, F, "none"),
        LocParenPc|-> L("text", T, F, "ok"),
        LocPathPc |-> L("text", F, F, "okpath"),
        LocHuge   |-> L("text", F, F, "huge"),
+       LocOddPc  |-> L("text", F, F, "huge"),     \* a pc= number in another notation (decimal, 0X.., 0o.., 0b.., 0x_..)
        LocBad    |-> L("text", F, F, "bad"),
        LocNoPc   |-> L("text", F, F, "none") ]
 \* SymPlain / SymParen1 and NoParen / LocNoPc are the same abstract lines (a text line with neither a
